@@ -583,8 +583,9 @@ class CheckedCoverageInstrumentation(python3_10.CheckedCoverageInstrumentation):
         # instructions, if they are present, otherwise it may cause issues.
         # ``instr_index`` is a position in the basic block, which may also contain
         # pseudo-instructions (e.g., TryEnd), so we look at the block itself.
-        assert instr_index > 0, f"A Instruction should exist before {instr} in {node.basic_block}"
-        precall_instr = node.basic_block[instr_index - 1]
+        # The call can be the first instruction of its basic block, e.g., when its
+        # last argument is a conditional expression: ``f(a if c else b)``.
+        precall_instr = node.basic_block[instr_index - 1] if instr_index > 0 else None
         if isinstance(precall_instr, Instr) and precall_instr.name == "PRECALL":
             instr_index -= 1
 
